@@ -1691,7 +1691,7 @@ def _dispatch_job(m, histories):
     Ms = Mgr.both()
     M = Ms[m]
     dc = descr_class_ok(M)
-    out = []
+    out, extra = [], None
     for h in histories:
         for X in Ms:
             X.reset()
@@ -1700,12 +1700,17 @@ def _dispatch_job(m, histories):
         for (t, wrong) in drive_dispatch.probes:
             fails.append(("C17_dispatch_follows_view", len(h) - 1, f"library code (tensorly.base.unfold / tensorly.tenalg.mode_dot / tucker_to_tensor) called in "
                           f"thread {t} after this history fetched implementations from objects other than the thread's current backend: {wrong}"))
-        hist = [f"{'tenalg' if m else 'backend'}.{op[0]}" + (f"/{ROUTES[op[3]].split(' ')[0]}" if op[0] in ("capture", "call") else "") + ":" + res[0]
+        hist = [f"{'tenalg' if m else 'backend'}.{op[0]}" + (f"/{['module', 'top', 'class'][op[3]]}" if op[0] in ("capture", "call") else "") + ":" + res[0]
                 for op, res in zip(h, outs)]
         out.append((pack(encode_dispatch(m, 4, dc, h, outs)), fails[0] if fails else None, hist))
+        if extra is None:
+            ds = encode_dispatch(m, 4, dc, h, outs)
+            ds[-2] = (ds[-2] + 1) % 5        # sentinel: the KIND of the last outcome altered (ran -> value of, ...)
+            extra = (pack(ds), {"mode": "dispatch routes of " + ("tensorly.tenalg" if m else "tensorly.backend"), "threads": 4,
+                                "history": [dop_lit(o) for o in h[-12:]], "outcomes": [list(map(str, r)) for r in outs[-12:]]})
     for X in Ms:
         X.reset()
-    return out, None
+    return out, extra
 
 
 def nonlifo_history(rng, maxlen):
@@ -1986,11 +1991,11 @@ def make_groups(tier, rng):
         groups.append((3 + m, False, 5, [random_scenario3(rng, m) for _ in range(150 if quick else 2000)], "concurrent-triple-schedules"))
     # both managers, contexts entered / left through the context-manager protocol: a context of one manager may be
     # left while a later context of the other manager is still live (C17_restore_mixed)
-    groups.append((7, False, 4, [nonlifo_history(rng, 10 if quick else 24) for _ in range(400 if quick else 3000)], "mixed-nonlifo-contexts"))
+    groups.append((7, False, 4, [nonlifo_history(rng, 10 if quick else 24) for _ in range(400 if quick else 1500)], "mixed-nonlifo-contexts"))
     # the dispatch layer: every route to a dispatched name, references captured before a switch and called by other
     # threads, threads started inside contexts, use_static_dispatch / use_dynamic_dispatch (Model/BackendDispatch.v)
     for m in (0, 1):
-        groups.append((8 + m, False, 4, systematic_dhistories(m) + [random_dhistory(rng, m, 14 if quick else 40) for _ in range(500 if quick else 4000)],
+        groups.append((8 + m, False, 4, systematic_dhistories(m) + [random_dhistory(rng, m, 14 if quick else 40) for _ in range(500 if quick else 2500)],
                        "dispatch-routes"))
     return groups
 
@@ -2003,7 +2008,9 @@ def corpus_histories():
         for fn in sorted(os.listdir(d)):
             if fn.endswith(".json"):
                 e = json.load(open(os.path.join(d, fn)))
-                out.append((int(e["mode"]), bool(e["main_actor"]), int(e["nthreads"]), hist_from_json(e["history"])))
+                mode = int(e["mode"])
+                out.append((mode, bool(e["main_actor"]), int(e["nthreads"]),
+                            dhist_from_json(e["history"]) if mode in (8, 9) else hist_from_json(e["history"])))
     return out
 
 
@@ -2055,7 +2062,13 @@ def run(chk):
     cases, meta, found = [], [], []
     sentinels = []
     picks = [e for e in extras if e[2]]
-    for (gi, k, extra) in [picks[0], picks[len(picks) // 2], picks[-1]] if picks else []:
+    chosen = [picks[0], picks[len(picks) // 2], picks[-1]] if picks else []
+    for mode_ in (8, 9):                     # one altered dispatch history per manager
+        dp = [e for e in picks if groups[e[0]][0] == mode_]
+        if dp and dp[0] not in chosen:
+            chosen.append(dp[0])
+            chk.sample(dp[0][2][1])
+    for (gi, k, extra) in chosen:
         sentinels.append(len(cases))
         cases.append(f"({len(cases)}, {extra[0]})")
         meta.append(None)
@@ -2188,12 +2201,12 @@ def run(chk):
                        "current source (ast) for both manager classes and checked in Coq (effect-point discipline, block equivalence with the model's programs "
                        "on 18 states each). DISPATCH (Model/BackendDispatch.v), per manager: 8 systematic histories (every (route, name) captured by thread 1 before a "
                        "switch of thread 2 - set / context, local / global, with and without use_static_dispatch - then called by every thread incl. one STARTED "
-                       "inside the context, through every route) + 500 (thorough 4000) random histories to length 14 (40) over {selections, use_static_dispatch, "
+                       "inside the context, through every route) + 500 (thorough 2500) random histories to length 14 (40) over {selections, use_static_dispatch, "
                        "use_dynamic_dispatch, capture, call captured, call} x routes {manager module, import-time binding / module __getattr__ (tensorly.<name>; for "
                        "tenalg: the name a library module imported), manager class} x names {2 functions, 2 attributes (backend only)}; every outcome (executing "
                        "object / object whose attribute was served / AttributeError) compared with the model; after each history without use_static_dispatch every actor "
                        "thread holding a harness backend runs LIBRARY code (tensorly.base.unfold, tenalg.mode_dot, tucker_to_tensor) under attribute-access logging. "
-                       "400 (thorough 3000) random histories over BOTH managers with contexts driven through cm.__enter__ / cm.__exit__, left in any order across "
+                       "400 (thorough 1500) random histories over BOTH managers with contexts driven through cm.__enter__ / cm.__exit__, left in any order across "
                        "the managers. Dispatch source: the look-up expressions of the dispatch closure, current_backend, get_backend, the attribute descriptor, what "
                        "use_dynamic_dispatch installs and the names bound at import are extracted from the current source (ast) and checked in Coq against the model's "
                        "parameters. Non-trivial = at least two threads act and a context is entered; distinct key = (mode, "
